@@ -196,7 +196,7 @@ func (b *bp) fieldLenLB(t *types.Named, fi int) int64 {
 		}
 	}
 	for fn := range b.p.AllFns {
-		if !b.p.IsRepoFn(fn) || fn.Origin() != nil || fn.Blocks == nil {
+		if !b.p.IsRepoFn(fn) || fn.Blocks == nil {
 			continue
 		}
 		for _, blk := range fn.Blocks {
